@@ -8,7 +8,7 @@ from .c05 import env_of
 
 PLAN = {
     "quick": {"shards": 8, "cases": 700, "min_nontrivial": 3000, "budget_s": 300},
-    "thorough": {"shards": 16, "cases": 3500, "min_nontrivial": 25000, "budget_s": 1500},
+    "thorough": {"shards": 16, "cases": 12000, "min_nontrivial": 67200, "budget_s": 1500},
 }
 RULE = ("schemas of depth <= 4 and width <= 6 with identifier keys whose option names are unique after the '.'/'_' -> '-' "
         "mapping, over all field families (nested schemas, config types, virtual and method fields included); (1) for "
